@@ -20,10 +20,54 @@ package hash
 //@   ensures  be32at(a, 0) < be32at(b, 0) || (be32at(a, 0) == be32at(b, 0) && be32at(a, 4) <= be32at(b, 4))
 //@
 //@ spec distinctN(hh Events, n int) bool = forall(i, 0, n, forall(j, 0, n, i != j ==> hh[i] != hh[j]))
+//@ // inL(hh, n, h): h occurs among the first n elements of hh
+//@ spec inL(hh Events, n int, h Event) bool = n > 0 && (hh[n-1] == h || inL(hh, n-1, h))
+//@ lemma inL_at(hh Events, n int, j int) by induction(n)
+//@   requires 0 <= j && j < n
+//@   ensures  inL(hh, n, hh[j])
+//@ lemma inL_witness(hh Events, n int, h Event) by induction(n)
+//@   requires inL(hh, n, h)
+//@   ensures  exists(j, 0, n, hh[j] == h)
+//@ lemma inL_frame(hh Events, n int, i int, v Event) by induction(n)
+//@   requires i >= n
+//@   ensures  forall(h Event, inL(hh[i := v], n, h) == inL(hh, n, h))
+//@ lemma inL_ext(a Events, b Events, n int) by induction(n)
+//@   requires forall(j, 0, n, a[j] == b[j])
+//@   ensures  forall(h Event, inL(a, n, h) == inL(b, n, h))
+//@ lemma inL_ext2(a Events, b Events, n int) by induction(n)
+//@   requires forall(j, 0, n, a[j] == b[j])
+//@   ensures  forall(m, 0, n+1, forall(h Event, inL(a, m, h) == inL(b, m, h)))
+//@ lemma inL_mono(hh Events, n int, m int, h Event) by induction(m)
+//@   requires n <= m && inL(hh, n, h)
+//@   ensures  inL(hh, m, h)
+//@
 //@ func (Events).Set
-//@   ensures  fresh(result) && forall(h Event, has(result, h) == exists(i, 0, len(hh), hh[i] == h))
+//@   ensures  fresh(result) && forall(h Event, has(result, h) == inL(hh, len(hh), h))
 //@   ensures  (len(result) == len(hh)) == distinctN(hh, len(hh)) && len(result) <= len(hh)
 //@   loop 1 modifies set[*]
 //@   loop 1 invariant 0 <= _k && _k <= len(hh) && len(set) <= _k
-//@   loop 1 invariant forall(h Event, has(set, h) == exists(i, 0, _k, hh[i] == h))
+//@   loop 1 invariant forall(h Event, has(set, h) == inL(hh, _k, h))
+//@   loop 1 invariant forall(j, 0, _k, inL(hh, _k, hh[j]))
 //@   loop 1 invariant (len(set) == _k) == distinctN(hh, _k)
+//@
+//@ func (EventsSet).Slice
+//@   ensures  fresh(result) && len(result) == len(hh) && distinctN(result, len(result))
+//@   ensures  forall(j, 0, len(result), has(hh, result[j]))
+//@   ensures  forall(h Event, has(hh, h) ==> inL(result, len(result), h))
+//@   loop 1 invariant i == _k && 0 <= _k && _k <= len(hh) && len(arr) == len(hh)
+//@   loop 1 invariant forall(j, 0, _k, _visited[arr[j]] && has(hh, arr[j]))
+//@   loop 1 invariant forall(h Event, _visited[h] ==> inL(arr, _k, h))
+//@   loop 1 invariant distinctN(arr, _k)
+//@   loop 1 hint use inL_frame(iterold(arr), _k - 1, _k - 1, arr[_k - 1])
+//@
+//@ func (EventsSet).Erase
+//@   requires hh != nil
+//@   modifies hh[*]
+//@   ensures  forall(h Event, has(hh, h) == (old(has(hh, h)) && !inL(hash, len(hash), h)))
+//@   ensures  len(hh) <= old(len(hh))
+//@   loop 1 modifies hh[*]
+//@   loop 1 invariant 0 <= _k && _k <= len(hash) && len(hh) <= old(len(hh))
+//@   loop 1 invariant forall(h Event, has(hh, h) == (old(has(hh, h)) && !inL(hash, _k, h)))
+//@
+//@ func (EventsSet).Contains
+//@   ensures  result == has(hh, hash)
